@@ -357,11 +357,13 @@ mod reent {
         /// the boxing fails (the sender is admitted, then has nothing to enqueue); with `true` it first calls
         /// drain() from inside box_message, so the drainer leaves the marker to exactly this sender
         Fails(u32, ActorCell, bool, Arc<Mutex<Vec<String>>>),
+        /// as `Fails`, but the boxing panics: the sender's admission ticket is released while its thread unwinds
+        Panics(u32, ActorCell, bool, Arc<Mutex<Vec<String>>>),
     }
     impl RMsg {
         pub fn id(&self) -> u32 {
             match self {
-                RMsg::Plain(n) | RMsg::Nested(n, ..) | RMsg::DrainInside(n, ..) | RMsg::Fails(n, ..) => *n,
+                RMsg::Plain(n) | RMsg::Nested(n, ..) | RMsg::DrainInside(n, ..) | RMsg::Fails(n, ..) | RMsg::Panics(n, ..) => *n,
             }
         }
     }
@@ -382,6 +384,13 @@ mod reent {
                         log.lock().unwrap().push(format!("drain-inside={}", r.is_ok()));
                     }
                     return Err(BoxedDowncastErr);
+                }
+                RMsg::Panics(_, target, drain_first, log) => {
+                    if *drain_first {
+                        let r = target.drain();
+                        log.lock().unwrap().push(format!("drain-inside={}", r.is_ok()));
+                    }
+                    panic!("box_message panics");
                 }
                 RMsg::Plain(_) => {}
             }
@@ -435,10 +444,13 @@ fn reentrant_body(mode: u8) -> vsched::Body {
                     1 => RMsg::DrainInside(1, a1.get_cell(), l1),
                     2 => RMsg::Fails(1, a1.get_cell(), true, l1),
                     3 => RMsg::Fails(1, a1.get_cell(), false, l1),
+                    4 => RMsg::Panics(1, a1.get_cell(), true, l1),
+                    5 => RMsg::Panics(1, a1.get_cell(), false, l1),
                     _ => RMsg::Nested(1, a1.get_cell(), 50, l1),
                 };
-                let r = a1.cast(m);
-                (call, 1u32, r.is_ok())
+                // (a panicking box_message unwinds through the send path; the sender survives it)
+                let r = std::panic::catch_unwind(std::panic::AssertUnwindSafe(|| a1.cast(m).is_ok())).unwrap_or(false);
+                (call, 1u32, r)
             }));
             let a2 = a.clone();
             ss.push(vsched::spawn("sender", async move {
@@ -556,7 +568,7 @@ pub fn plan(tier: &str) -> Plan {
     }
     // sends and drains issued re-entrantly while a message is being boxed (custom Message::box_message: only
     // possible in ractor's cluster build, so these run on the alt build of the harness)
-    for (mode, name) in [(0u8, "send-while-boxing"), (1, "drain-while-boxing"), (2, "drain-while-boxing-then-boxing-fails"), (3, "boxing-fails")] {
+    for (mode, name) in [(0u8, "send-while-boxing"), (1, "drain-while-boxing"), (2, "drain-while-boxing-then-boxing-fails"), (3, "boxing-fails"), (4, "drain-while-boxing-then-boxing-panics"), (5, "boxing-panics")] {
         units.push(crate::common::alt_unit(format!("alt/reentrant/{name}"), live_cfg.clone(), Some(lb + 1), reentrant_body(mode), 4));
     }
     Plan {
